@@ -37,7 +37,7 @@ func init() {
 			"non-trivial = all clauses evaluated; distinct = distinct (name, GUID, mask, payload, key, instant, zone)",
 		Assumptions: []string{"clock and zone are injected through the vtime shim (time.Now redirected by the overlay)", "names are ASCII (the statement's domain)"},
 		Units: func(tier string) []string {
-			return []string{"names#0", "names#1", "names#2", "names#3", "masks", "guids", "clock", "openssl", "ca-issued"}
+			return []string{"names#0", "names#1", "names#2", "names#3", "masks", "guids", "clock", "openssl", "ca-issued", "stepping-clock"}
 		},
 		Run:    c06Run,
 		Budget: dur(5*time.Minute, 30*time.Minute),
@@ -93,18 +93,26 @@ func c06CheckCert(c *hx.Ctx, name string, guid util.EFIGUID, attrs uint32, pl c0
 	if !c.Next() {
 		return
 	}
-	vtime.Set(instant)
+	stepping := c06Stepping
+	if stepping {
+		vtime.SetStepping(instant, time.Second)
+	} else {
+		vtime.Set(instant)
+	}
 	label := fmt.Sprintf("name=%q guid=%s attrs=%#x payload=%s key=k%d cert=%q instant=%s", name, refFormat(guid), attrs, pl.name, k, signerCert.Subject.CommonName, instant.Format(time.RFC3339))
 	g := guid
 	v := efivar.Efivar{Name: name, GUID: &g, Attributes: attributes.Attributes(attrs)}
 	var out []byte
 	var err error
 	var cert *x509.Certificate = signerCert
+	var held efivar.Marshallable
+	scribbled := true
 	if pn := hx.Try(func() {
 		var m efivar.Marshallable
 		_, m, err = signature.SignEFIVariable(v, pl.m, memoSignerFor(k), cert)
 		if err == nil {
 			out = m.Bytes()
+			held = m
 		}
 	}); pn != nil {
 		c.Outcome("panic")
@@ -115,6 +123,24 @@ func c06CheckCert(c *hx.Ctx, name string, guid util.EFIGUID, attrs uint32, pl c0
 		c.Outcome("error")
 		c.Violation("C06 SignEFIVariable fails for valid inputs", map[string]any{"case": label, "error": err.Error()})
 		return
+	}
+	if scribbled {
+		// the caller reused the storage of its payload after signing; the update must still be
+		// the one that was signed
+		if rv, ok := pl.m.(rawval); ok {
+			for i := range rv {
+				rv[i] ^= 0xff
+			}
+			out2 := held.Bytes()
+			for i := range rv {
+				rv[i] ^= 0xff
+			}
+			if !bytes.Equal(out2, out) {
+				c.Outcome("violation")
+				c.Violation("C06 the signed update changes when the caller reuses the storage of the payload it passed in", map[string]any{"case": label})
+				return
+			}
+		}
 	}
 	bad := func(what string, extra map[string]any) {
 		d := map[string]any{"case": label, "update": hx8(out)}
@@ -130,6 +156,23 @@ func c06CheckCert(c *hx.Ctx, name string, guid util.EFIGUID, attrs uint32, pl c0
 		return
 	}
 	u := instant.UTC()
+	if stepping {
+		// the clock advanced by one second at every reading: the descriptor must carry ONE of the
+		// instants read during the call (which one is not prescribed), and that same instant must be
+		// the one that was signed (checked by the verification over the rebuilt buffer below)
+		okT := false
+		for i := 0; i < vtime.Calls(); i++ {
+			x := u.Add(time.Duration(i) * time.Second)
+			if a.Time == (refauth.Time{Year: uint16(x.Year()), Month: uint8(x.Month()), Day: uint8(x.Day()), Hour: uint8(x.Hour()), Minute: uint8(x.Minute()), Second: uint8(x.Second())}) {
+				okT = true
+				u = x
+			}
+		}
+		if !okT {
+			bad("timestamp is none of the instants the clock showed during the call", nil)
+			return
+		}
+	}
 	want := refauth.Time{Year: uint16(u.Year()), Month: uint8(u.Month()), Day: uint8(u.Day()), Hour: uint8(u.Hour()), Minute: uint8(u.Minute()), Second: uint8(u.Second())}
 	if a.Time != want {
 		what := "timestamp is not the current time in UTC with zero pad/nanosecond/timezone/daylight fields"
@@ -231,6 +274,9 @@ func c06CheckCert(c *hx.Ctx, name string, guid util.EFIGUID, attrs uint32, pl c0
 	c.Nontrivial([]byte(label))
 }
 
+// c06Stepping selects the stepping clock (every reading of the clock is one second later).
+var c06Stepping bool
+
 func c06Names() []string {
 	var n []string
 	for _, v := range c11Predefined {
@@ -313,6 +359,16 @@ func c06Run(c *hx.Ctx, tier, unit string) {
 					c06CheckCert(c, name, gA, 0x27, pl, k, keys.Leaf(k), t0, nil)
 					c06CheckCert(c, name, gA, 0x67, pl, k, keys.Leaf(k), t0, nil)
 				}
+			}
+		}
+	case unit == "stepping-clock":
+		// a clock that moves between two readings inside one call (slow signer, second boundary)
+		c06Stepping = true
+		defer func() { c06Stepping = false }()
+		for _, name := range []string{"db", "PK", "A"} {
+			for _, pl := range pls {
+				c06Check(c, name, gA, 0x27, pl, 1, time.Date(2023, 12, 31, 23, 59, 58, 0, time.UTC), nil)
+				c06CheckCert(c, name, gA, 0x67, pl, 1, keys.Leaf(1), t0, nil)
 			}
 		}
 	case unit == "openssl":
